@@ -118,4 +118,18 @@ CLAIMS["C05"] = {
     "note": "Trusts: objective/constraint functions are pure in the vector; np.round semantics; the default surrogate passes through (C19).",
 }
 
+CLAIMS["C18"] = {
+    "category": "other",
+    "technique": "decision table by abstract interpretation (personal best); bounded-by facts through min/max (velocity clamp) plus call-site argument resolution; path rules on the three update_position / update_global_best overrides; reuse of the archive action-table rules",
+    "text": "Decides: the personal-best update by a complete table over the comparator verdict (both fields replaced from the same particle "
+            "unless the old best dominates the new position); the velocity clamp by bounded-by facts propagated through min/max with the "
+            "affine definition of the half range, and that every velocity component written by both update_velocity implementations is that "
+            "function's result called with the bounds of the same-index parameter in the right order; for each of the three update_position "
+            "overrides, on every path of the per-coordinate body, that a violated bound resets the coordinate to that bound and scales the "
+            "velocity component by the documented factor on exactly those paths; and for each update_global_best that the leaders are "
+            "truncated to the population-size option after the last insertion on every path, with insertions only through Archive.add whose "
+            "action table (C04 rules, re-run here) gives mutual non-dominance.",
+    "note": "Trusts: lower <= upper bounds; comparator semantics (C01); the induction from the per-insertion action table to the global invariant.",
+}
+
 NOT_APPLICABLE = {}
